@@ -70,6 +70,35 @@ def model_first_close(s):
     return None
 
 
+def _lexer_model_ok():
+    pat = _re.compile(string_pattern())
+    for L in range(0, 8):
+        for tup in itertools.product('"\\a\n', repeat=L):
+            s = "".join(tup)
+            m = pat.match(s)
+            if (m.end() if m else None) != model_first_close(s):
+                return False
+    return True
+
+
+LEXER_MODEL_OK = _lexer_model_ok()
+
+
+def single_token(ctx, lit):
+    """bool / z3 Bool: lit is lexed as exactly one STRING token ending at its last character. Fast closed form while the
+    loaded grammar's STRING terminal agrees with the lexer model; otherwise the real pattern is matched through the
+    regex model (forking), so a changed terminal still gets a verdict."""
+    if is_native():
+        m = _re.compile(string_pattern()).match(V.to_native(lit))
+        return bool(m) and m.end() == len(lit.cells)
+    if LEXER_MODEL_OK:
+        return single_token_expr(lit)
+    from symx import models_re
+
+    m = models_re._run(string_pattern(), lit, 0, True, False)
+    return m is not None and m.end() == len(lit.cells)
+
+
 def mk_token(lit):
     if is_native():
         return lark.Token("STRING", V.to_native(lit))
@@ -87,7 +116,7 @@ def h_roundtrip(L, alphabet):
                 else:
                     ctx.assume(mkbool(z3.Or(*[c == k for k in alphabet])))
         lit = as_str(call(c2profile.value_to_string, V.unwrap(b) if is_native() else b))
-        ctx.prove(single_token_expr(lit), "literal is lexed as exactly one STRING token ending at its last character")
+        ctx.prove(single_token(ctx, lit), "literal is lexed as exactly one STRING token ending at its last character")
         back = call(c2profile.string_token_to_bytes, mk_token(lit))
         ctx.prove(deep_eq(as_bytes(back), b), "string_token_to_bytes(value_to_string(b)) == b")
         # the literal must stay on the printable-ASCII side so that it survives any text encoding of the profile
@@ -175,7 +204,8 @@ def h_escapes(L):
         t = sym_str("t", L)
         lit = SymStr([0x22] + t.cells + [0x22])
         # only literals the lexer accepts as one STRING token are inputs of the decoder
-        ctx.assume(mkbool(single_token_expr(lit)))
+        st = single_token(ctx, lit)
+        ctx.assume(st if isinstance(st, bool) else mkbool(st))
         try:
             exp = ("ok", ref_decode(t.cells))
         except ValueError:
@@ -220,12 +250,15 @@ def prechecks(tier, seed):
     n = 0
     # 1. lexer model vs the real STRING regex of the loaded grammar
     pat = _re.compile(string_pattern())
-    for L in range(0, 8):
+    from symx import models_re
+
+    for L in range(0, 7):
         for tup in itertools.product('"\\a\n', repeat=L):
             s = "".join(tup)
             m = pat.match(s)
             real = m.end() if m else None
-            assert real == model_first_close(s), ("STRING lexer model", s, real, model_first_close(s))
+            r = models_re._run(string_pattern(), SymStr([ord(c) for c in s]), 0, True, False)
+            assert real == (r.end() if r else None), ("regex model vs re on the STRING terminal", s)
             n += 1
     # 2. repr(bytes) model vs CPython: every single byte, every pair over a critical set, random strings
     crit = [0, 9, 10, 13, 31, 32, 34, 39, 92, 126, 127, 128, 255, 65]
@@ -236,7 +269,7 @@ def prechecks(tier, seed):
         got = "".join(chr(z3.simplify(cp(c)).as_long()) if not isinstance(c, int) else chr(c) for c in got.cells)
         assert got == repr(v), ("repr model", v, got, repr(v))
         a = c2profile.value_to_string(v)
-        b = V.to_native(as_str(call(c2profile.value_to_string, SymBytes(list(v)))))
+        b = V.to_native(as_str(call(c2profile.value_to_string, SymBytes([z3.BitVecVal(c, 8) for c in v]) if False else SymBytes(list(v)))))
         assert a == b, ("value_to_string interp vs native", v)
         assert c2profile.string_token_to_bytes(lark.Token("STRING", a)) == V.to_native(as_bytes(call(c2profile.string_token_to_bytes, SymToken("STRING", a))))
         n += 3
